@@ -17,3 +17,39 @@ pub fn ok_take_chars(input: &str, q: usize) -> String {
 pub fn ok_byte_slice(input: &str, q: usize) -> Option<&str> {
     input.get(q..input.len() - q)
 }
+
+pub struct CtlAccum {
+    pub length: usize,
+}
+pub enum Cell {
+    CharList(usize),
+}
+impl Cell {
+    pub fn as_char_list_mut(&mut self) -> &mut usize {
+        match self {
+            Cell::CharList(n) => n,
+        }
+    }
+}
+impl CtlAccum {
+    pub fn push_char(&mut self, c: char) {
+        self.length += c.len_utf8();
+    }
+}
+pub fn ctl_header_write_from_byte_accumulator(acc: CtlAccum, cell: &mut Cell) {
+    let n = cell.as_char_list_mut();
+    *n = acc.length;
+}
+
+pub struct OkAccum {
+    pub count: usize,
+}
+impl OkAccum {
+    pub fn push_char(&mut self, _c: char) {
+        self.count += 1;
+    }
+}
+pub fn ok_header_write_from_char_accumulator(acc: OkAccum, cell: &mut Cell) {
+    let n = cell.as_char_list_mut();
+    *n = acc.count;
+}
